@@ -1212,3 +1212,14 @@ _geo("facet_geometry_tet_interior", "tetrahedron",
 _geo("jacobians_hex", "hexahedron",
      "ufl.SpatialCoordinate(mesh)[2] * ufl.JacobianInverse(mesh)[0, 1] * ufl.JacobianDeterminant(mesh) * f * v",
      "ufl.dx", tags=("kern", "geo", "slow"))
+
+# the two forms of two_forms_tri in the other list order (one of the two orders differs from
+# any canonical order a JIT might sort them into)
+_add(
+    Request(
+        "two_forms_tri_rev",
+        "forms",
+        POOL["two_forms_tri"].stmts[:-1] + ["objs = [L, a]"],
+        tags=("tiny", "multi-form"),
+    )
+)
